@@ -334,7 +334,7 @@ fn run_c16(ctx: &mut Ctx) {
     for ty in 0..NTYPES {
         let cap = TYPE_FIXED_CAP[ty];
         let w = TYPE_WORD_BITS[ty];
-        let k = if w == 8 { tier.pick(6, 13, 16) } else { tier.pick(5, 10, 12) };
+        let k = if w == 8 { tier.pick(6, 15, 17) } else { tier.pick(5, 12, 14) };
         for n in 0..=k.min(cap.unwrap_or(usize::MAX)) {
             if !ctx.mine() {
                 continue;
@@ -385,7 +385,7 @@ fn run_c16(ctx: &mut Ctx) {
             }
         }
     }
-    let per = tier.pick(100, 20_000, 500_000) / ctx.nworkers + 1;
+    let per = tier.pick(100, 600_000, 6_000_000) / ctx.nworkers + 1;
     let mut rng = Rng::derive(ctx.seed, 0x1617, ctx.worker as u64);
     for _ in 0..per {
         let ty = rng.below(NTYPES);
@@ -443,7 +443,7 @@ fn run_c17(ctx: &mut Ctx) {
                 if !ctx.mine() {
                     continue;
                 }
-                if tier != Tier::Thorough && s.len() == depth && (si + ty + n) % 4 != 0 {
+                if tier == Tier::Tiny && s.len() == depth && (si + ty + n) % 4 != 0 {
                     continue;
                 }
                 let mode = (si + ty) % 3;
@@ -461,7 +461,7 @@ fn run_c17(ctx: &mut Ctx) {
         }
     }
     // seeded long sequences on longer vectors
-    let per = tier.pick(100, 30_000, 800_000) / ctx.nworkers + 1;
+    let per = tier.pick(100, 400_000, 4_000_000) / ctx.nworkers + 1;
     let mut rng = Rng::derive(ctx.seed, 0x1718, ctx.worker as u64);
     for _ in 0..per {
         let ty = rng.below(NTYPES);
